@@ -83,6 +83,8 @@ const (
 	LUSafe
 	LUOptLeaf
 	LUBadProto
+	LUZeroA
+	LUZeroB
 	// barriers: leaves with a hidden error
 	LHandled
 	LOpaque
@@ -299,6 +301,10 @@ func init() {
 		build: func(n *Node, _, _ []error) error { return &ULeafSafe{SafePart: n.S[0].V, UnsafePart: n.S[1].V} }})
 	def(LUBadProto, KindInfo{Slots: "U", Name: "uLeafBadProto", Groups: GUser, Weight: 2,
 		build: func(n *Node, _, _ []error) error { return &ULeafBadProto{Msg: n.S[0].V} }})
+	def(LUZeroA, KindInfo{Name: "uZeroA", Groups: GUser, Weight: 2,
+		build: func(n *Node, _, _ []error) error { return &UZeroA{} }})
+	def(LUZeroB, KindInfo{Name: "uZeroB", Groups: GUser, Weight: 2,
+		build: func(n *Node, _, _ []error) error { return &UZeroB{} }})
 	def(LUOptLeaf, KindInfo{Slots: "U", Name: "uWrapOpt(nil)", Groups: GUser, Weight: 2,
 		build: func(n *Node, _, _ []error) error { return &UWrapOpt{Msg: n.S[0].V} }})
 	// ---------------- barriers
